@@ -30,7 +30,7 @@ def _c06_run(method, n, order, r, x, h, D, extra_rows=2):
     fx = f(x)
     fdel = [rule.diff(f, fx, x, hk) for hk in steps]
     der, hh, shape = rule.apply(fdel, steps, r)
-    scale = max(1.0, abs(b[n]), float(np.max(np.abs(w)) * np.max(np.abs(fdel)) / min(steps) ** n) * 1e-10)
+    scale = max(1.0, abs(b[n]), float(np.max(np.abs(w)) * np.max(np.abs(fdel)) / min(abs(s_) for s_ in steps) ** n) * 1e-10)
     return rule, np.asarray(der).ravel(), b, scale, np.asarray(hh).ravel()
 
 
@@ -81,6 +81,12 @@ def _c06_exact_body(case):
         bad = not (err <= TOL * scale)
         rep = rep or bad
         out.append(dict(step_ratio=r, degree=D, expected=b[case['n']], got=der.tolist(), err=err, tol=TOL * scale))
+        # a geometric sequence of NEGATIVE steps is as good as a positive one (the quotient is divided by h**n, sign included)
+        rule, der, b, scale, _ = _c06_run(case['method'], case['n'], case['order'], r, case['x'], -case['h'], D)
+        err = float(np.max(np.abs(der - b[case['n']])))
+        if not (err <= TOL * scale):
+            rep = True
+            out.append(dict(step_ratio=r, degree=D, negative_steps=True, first_step=-case['h'], expected=b[case['n']], got=der.tolist(), err=err, tol=TOL * scale))
     # the same with a complex-valued polynomial (complex coefficients, real steps; real-step methods only)
     if case['method'] in ('central', 'forward', 'backward'):
         for r in case['step_ratios'][:1]:
